@@ -18,12 +18,18 @@ Inductive dkind := DNone | DDistinct | DOn.
 Record limit := mkLimit { l_limit : bool; l_offset : bool; l_offset_rows : bool; l_fetch : bool }.
 Definition no_limit := mkLimit false false false false.
 
+(* window frame of an OVER clause.  A bound is CURRENT ROW, <n> PRECEDING or <n> FOLLOWING, n = None for UNBOUNDED
+   (offsets are literals in what prqlc emits; the converter refuses anything else).  [WFrame units s e]: units 1 = ROWS,
+   2 = RANGE, 3 = GROUPS; e = None is the short form without BETWEEN (its end is CURRENT ROW). *)
+Inductive wbound := WCur | WPrec (n : option N) | WFol (n : option N).
+Inductive wframe := WNone | WFrame (units : N) (s : wbound) (e : option wbound).
+
 Inductive expr : Type :=
 | ECol (q : option name) (c : name)          (* column reference: bare [c] or qualified [q.c] *)
 | ELit                                       (* literal, placeholder, opaque text *)
 | EStar (q : option name)                    (* [*] / [q.*] in expression position: COUNT( * ), GROUP BY t.* *)
 | EApp (f : name) (args : exprs)             (* function call / operator / CASE / CAST / IN-list ...: f = 0 for operators *)
-| EWin (f : name) (args part ord : exprs)    (* f(args) OVER (PARTITION BY part ORDER BY ord) *)
+| EWin (f : name) (args part ord : exprs) (fr : wframe)   (* f(args) OVER (PARTITION BY part ORDER BY ord <frame>) *)
 | ESub (q : query)                           (* scalar / EXISTS / IN sub-query *)
 with exprs : Type :=
 | ENil
